@@ -9,6 +9,8 @@ package checkpoint
 //@ func restoreChunk
 //@   props C12
 //@   requires chunk != nil
+//@   modifies db.GBatchCommits, db.GNewBatches, db.GBatchPuts, db.GFinalizes, db.GBatchCommitsOK
+//@   trustframe
 //@   precall ProofVerifier\)\.VerifyProof$ :: decodeErr == nil && chunk.Digest == chunkHash && p.UntrustedRoot == chunk.Root.Hash
 //@   precall db/api\.NodeDB\)\.NewBatch$ :: defined(ptr) && err == nil && decodeErr == nil
 //@   precall checkpoint\.doRestoreChunk$ :: db.GNewBatches == old(db.GNewBatches) + 1 && err == nil
@@ -45,6 +47,8 @@ package checkpoint
 //@   requires rs != nil
 //@   precall checkpoint\.restoreChunk$ :: err == nil && chunk != nil && chunk.Index == idx && rs.pendingChunks[idx]
 //@   ensures db.GFinalizes == old(db.GFinalizes)
+//@   ensures result0 ==> (forall k uint64 :: old(rs.pendingChunks[k]) ==> k == idx)
+//@   note completion is signalled only when the chunk just restored was the LAST pending one - whatever its index and whatever the order in which the chunks arrive (seed C12_f decided it by the chunk's index). restoreChunk's frame (it touches the node database and fresh objects only, not the restorer) is assumed (trustframe)
 //@   note a chunk is imported only with the metadata the current checkpoint holds for its index; concurrency (two callers racing on the same pending index) is outside what a sequential contract can state
 
 // ---- chunk creation (C12): a chunk is written, and success reported, only while the tree iterator is error-free ----
